@@ -138,7 +138,7 @@ def _any_call(c):
             z3.ForAll([v], M.anyok(R, M.llen(R), v) ==
                       z3.Or(M.conforms(t0, v), M.anyok(ts, M.llen(ts), v)),
                       patterns=[M.anyok(R, M.llen(R), v)]))
-    c.ensures("union", union_ok, ("C13",))
+    c.ensures("union", union_ok, ("C13", "C06"))
 
     def kept_when_flat(r, post):
         # no argument is itself a declared union: the alternatives are the arguments, in order (C06 relies on it)
@@ -176,8 +176,10 @@ def _union(c):
     v = z3.Const("uv3", Obj)
     c.ensures("accepts-the-union", lambda r, post: z3.ForAll(
         [v], S.conforms(r, v) == z3.Or(S.conforms(a, v), S.conforms(b, v)), patterns=[S.conforms(r, v)]), ("C13",))
-    # (reach includes: the alternatives are flat -- what the representor and the generator assume of every union)
     c.ensures("is-schema", lambda r, post: z3.And(S.is_schema(ct, r), S.wf(r), S.reach(r)), ("C13", "C06", "C01"))
+    # the alternatives are flat (no alternative is itself a declared union): what Representor.visit_any assumes of every
+    # union it prints -- AnySchema.__call__ establishes it, every other producer has to keep it
+    c.ensures("alternatives-flat", lambda r, post: no_declared_any(ct, S.prop(r, "types")), ("C06", "C13"))
 
 
 # ----------------------------------------------------------------------------- alias
